@@ -48,6 +48,11 @@ type c11Case struct {
 	// Mixed (with EncMask 3): the two encrypted assertions differ in EncryptedKey placement and
 	// OAEP digest (1: inline+sha256 then detached+default, 2: the reverse)
 	Mixed int `json:"mixed,omitempty"`
+	// NS: where the prefixes of the EncryptedAssertion element are declared (0 on the element
+	// itself; 1 its own prefix on the Response root only; 2 all of saml/xenc/ds on the root only;
+	// 3 a local default namespace). Signed "response-c14n11" signs the Response with inclusive
+	// canonicalisation (the verified element then keeps the spelling of the message).
+	NS int `json:"ea_namespace_spelling,omitempty"`
 }
 
 func c11Plain(n, tail int) []byte {
@@ -117,6 +122,12 @@ func c11Exec(c c11Case) (keys []string, detail, class string) {
 		conf.EncSetter = "KS"
 	case "both-different":
 		conf.EncField, conf.EncSetter = "KX", "KS" // the setter's key is the one in force
+	case "field-rsa3072":
+		conf.EncField, toKey = "KM", "KM"
+	case "field-rsa4096":
+		conf.EncField, toKey = "KL", "KL"
+	case "setter-rsa4096":
+		conf.EncField, conf.EncSetter, toKey = "-", "KL", "KL"
 	}
 	mk := func(encrypted bool) string {
 		n := 1
@@ -128,8 +139,12 @@ func c11Exec(c c11Case) (keys []string, detail, class string) {
 		if n == 2 {
 			r.Assertions[1].NameID = "second-subject@example.com"
 		}
-		if c.Signed == "response" {
-			r.Sign = idp.SignSpec{Key: "K1"}
+		rootSign := idp.SignSpec{Key: "K1"}
+		if c.Signed == "response-c14n11" {
+			rootSign.C14N = idp.C14N11
+		}
+		if strings.HasPrefix(c.Signed, "response") {
+			r.Sign = rootSign
 		} else {
 			for i := range r.Assertions {
 				r.Assertions[i].Sign = idp.SignSpec{Key: "K1"}
@@ -163,9 +178,10 @@ func c11Exec(c c11Case) (keys []string, detail, class string) {
 			idx := as.Index()
 			doc.Root().RemoveChildAt(idx)
 			doc.Root().InsertChildAt(idx, ea)
+			idp.RespellEA(ea, doc.Root(), c.NS)
 		}
-		if c.Signed == "response" {
-			idp.SignInPlace(doc.Root(), idp.SignSpec{Key: "K1"})
+		if strings.HasPrefix(c.Signed, "response") {
+			idp.SignInPlace(doc.Root(), rootSign)
 		}
 		return idp.Encode(idp.Bytes(doc, idp.Layout{}), false)
 	}
@@ -330,6 +346,33 @@ func c11Cases(thorough bool) (cases []c11Case, n1 int) {
 			}
 		}
 	}
+	// larger SP keys: the transported key is as long as the modulus
+	for _, kc := range []string{"field-rsa3072", "field-rsa4096", "setter-rsa4096"} {
+		for alg := 0; alg < 5; alg++ {
+			for tr := 0; tr < 9; tr++ {
+				for _, pl := range []string{"", "detached"} {
+					cases = append(cases, c11Case{Level: "ValidateEncodedResponse", DataAlg: alg, Transport: tr, KeyCfg: kc, Signed: "assertion", Placement: pl, Len: 1})
+				}
+			}
+		}
+	}
+	// namespace spellings of the EncryptedAssertion element x how the Response is signed
+	for ns := 0; ns <= 3; ns++ {
+		for _, signed := range []string{"assertion", "response", "response-c14n11"} {
+			if ns == 0 && signed != "response-c14n11" {
+				continue // enumerated above
+			}
+			for _, alg := range []int{0, 3} {
+				for _, pl := range []string{"", "detached"} {
+					for _, kc := range []string{"field", "setter"} {
+						for _, mask := range []int{0, 3} {
+							cases = append(cases, c11Case{Level: "ValidateEncodedResponse", DataAlg: alg, KeyCfg: kc, Signed: signed, Placement: pl, Len: 1, EncMask: mask, NS: ns})
+						}
+					}
+				}
+			}
+		}
+	}
 	return cases, n1
 }
 
@@ -372,7 +415,7 @@ func c11HeldExec(c c11Held) (keys []string, detail string) {
 }
 
 func c11Run(r *mc.Run) {
-	r.Rule = "DecryptBytes level: full product data algorithm(5) x key transport/digest(9: OAEP-MGF1P and OAEP 1.1 with digest absent/sha1/sha256/sha512, RSA 1.5) x EncryptedKey placement(2) x recipient certificate(2) x plaintext length 0..48 (and 255..257, 4095..4097, 65535..65537, 1 MiB + 1) x tail(4: non-zero, 1, 2, 16 zero bytes) x CBC pad fill(3: zero, PKCS#7, 0xff), oracle = an independent XML-Enc encryptor (idp/enc.go): decrypted bytes = plaintext exactly, and still so after the next decryption (results held by the caller); ValidateEncodedResponse level: 45 combinations x 16 residues mod 16 x placement(2) x signing(2) x 5 key configurations (field, setter, both same, both different, field holding a key store of a custom type), plus Responses with two assertions of which the first, the second or both are encrypted (2 algorithms x 2 key configurations x 2 signing placements), oracle = plaintext twin (same outcome, same data in the same order, same summary); field-configured keys are also rolled over on the used instance, a setter-configured KeyStore is also updated in place; two encrypted assertions also with different key placement and digest. non-trivial = decryption reached the symmetric step; distinct = distinct case"
+	r.Rule = "DecryptBytes level: full product data algorithm(5) x key transport/digest(9: OAEP-MGF1P and OAEP 1.1 with digest absent/sha1/sha256/sha512, RSA 1.5) x EncryptedKey placement(2) x recipient certificate(2) x plaintext length 0..48 (and 255..257, 4095..4097, 65535..65537, 1 MiB + 1) x tail(4: non-zero, 1, 2, 16 zero bytes) x CBC pad fill(3: zero, PKCS#7, 0xff), oracle = an independent XML-Enc encryptor (idp/enc.go): decrypted bytes = plaintext exactly, and still so after the next decryption (results held by the caller); ValidateEncodedResponse level: 45 combinations x 16 residues mod 16 x placement(2) x signing(2) x 5 key configurations (field, setter, both same, both different, field holding a key store of a custom type), plus Responses with two assertions of which the first, the second or both are encrypted (2 algorithms x 2 key configurations x 2 signing placements), oracle = plaintext twin (same outcome, same data in the same order, same summary); field-configured keys are also rolled over on the used instance, a setter-configured KeyStore is also updated in place; two encrypted assertions also with different key placement and digest; SP keys of RSA-3072 and RSA-4096 (field, setter) x algorithm(5) x transport(9) x placement(2); the EncryptedAssertion's namespace prefixes declared on the element, on the Response root only (its own / all three), or as a local default namespace x signing(3: assertions, Response with exclusive, Response with inclusive canonicalisation) x algorithm(2) x placement(2) x key API(2) x one or two encrypted assertions. non-trivial = decryption reached the symmetric step; distinct = distinct case"
 	r.Assume("for non-default OAEP digests MGF1 uses the same hash (the reading under which the library's exported identifiers interoperate with itself)")
 	cases, n1 := c11Cases(r.Thorough())
 	r.Set("decryptbytes_cases", n1)
